@@ -87,8 +87,14 @@ def run_shard(spec, tier, seed):
     if spec['kind'] == 'returns':
         year = spec['year']
         for fam in spec['families']:
-            for p in scen.personas(seed, year, fam, spec['n']):
-                out, tv, t = realwork.traced(p)
+            for jn, p in enumerate(scen.personas(seed, year, fam, spec['n'])):
+                if jn % 3 == 2:
+                    # the same return reached in two calls on one Solver (a statement form first, its solution looked at, then the
+                    # return): the solution written afterwards is the whole one
+                    out, tv, t = realwork.traced(p, forms=['w-2:0'], then_request=list(p.forms()))
+                    res.count('returns_solved_in_two_calls')
+                else:
+                    out, tv, t = realwork.traced(p)
                 if out.exc is not None or out.ret is not True:
                     res.count('unsolved_skipped')
                     continue
@@ -165,6 +171,19 @@ def run_shard(spec, tier, seed):
             r = cli.run_cli(['solve', inp, '--year', str(year), '--form', '1040', '--solution', sol])
             res.evaluations += 1
             res.count('cli_year_runs')
+            # a return that does not solve (an input missing, nobody to ask) still writes what it has - for the year it was solved for
+            inc = os.path.join(tmp, 'incomplete.ini')
+            drop = [q for q in sorted(p.answers) if q.startswith('1040.')][:1]
+            write_ini(inc, {q: v for q, v in p.answers.items() if q not in drop})
+            solp = os.path.join(tmp, 'partial.ini')
+            rp_ = cli.run_cli(['solve', inc, '--year', str(year), '--form', '1040', '--solution', solp])
+            res.evaluations += 1
+            if rp_.exc is None and os.path.exists(solp):
+                res.count('cli_partial_solutions_written')
+                cpp = configparser.ConfigParser()
+                cpp.read(solp)
+                if cpp.get('habutax', 'tax_year', fallback=None) != str(year):
+                    res.violation(f'C14|cli|{year}|year-missing', f'`solve --year {year} --solution` of a return that does not solve (missing {drop}) wrote tax_year={cpp.get("habutax", "tax_year", fallback=None)!r}', {'year': year, 'missing': drop})
             if r.exc is None and os.path.exists(sol):
                 want = drive.solution_map(out)
                 try:
